@@ -14,10 +14,22 @@ import (
 // upstream. The digits are enumerated (time parsing of symbolic text is outside the technique),
 // so this harness is an exhaustive enumeration of a finite domain, not a symbolic one.
 //
-//verif:opt maxpaths=500 reach=agree
+//verif:opt maxpaths=2000 reach=agree
 func Harness_C10_utctime() {
 	yy := vChoice("two-digit-year", 100)
 	der := []byte{0x17, 0x0d, '0' + byte(yy/10), '0' + byte(yy%10), '0', '1', '0', '2', '0', '3', '0', '4', '0', '5', 'Z'}
+	// also with a zone offset (accepted by both decoders), first and last second of the written
+	// year: the instant then lies in the neighbouring year, the century is chosen by the year as written
+	form := vChoice("zone-form", 3)
+	if form > 0 {
+		body := "0101000000"
+		if vChoice("end-of-year", 2) == 1 {
+			body = "1231235959"
+		}
+		zone := []string{"", "+0100", "-0100"}[form]
+		txt := string([]byte{'0' + byte(yy/10), '0' + byte(yy%10)}) + body + zone
+		der = append([]byte{0x17, byte(len(txt))}, txt...)
+	}
 	var f, s time.Time
 	frest, ferr := Unmarshal(der, &f)
 	srest, serr := stdasn1.Unmarshal(der, &s)
@@ -26,7 +38,10 @@ func Harness_C10_utctime() {
 		vAssert(f.Equal(s) && f.Year() == s.Year(), "UTCTime: same instant as upstream (1950..2049 window)")
 		fo, e1 := Marshal(f)
 		so, e2 := stdasn1.Marshal(s)
-		vAssert(e1 == nil && e2 == nil && string(fo) == string(so) && string(fo) == string(der), "UTCTime re-marshals to the input, as upstream")
+		vAssert((e1 == nil) == (e2 == nil) && string(fo) == string(so), "UTCTime re-marshals as upstream")
+		if form == 0 {
+			vAssert(e1 == nil && string(fo) == string(der), "DER UTCTime re-marshals to the input")
+		}
 	}
 	vReach("agree")
 }
